@@ -440,6 +440,11 @@ pub fn lcs_big() -> Vec<LargeInput> {
             new: (0..4100u32).map(|i| 20_000 + i).collect(),
         },
         LargeInput {
+            name: "lcsbig-11600x11600-unrelated-with-common-ends".into(),
+            old: [1u32, 2, 3].iter().copied().chain((0..11_600u32).map(|i| 10_000 + i)).chain([4u32, 5].iter().copied()).collect(),
+            new: [1u32, 2, 3].iter().copied().chain((0..11_600u32).map(|i| 30_000 + i)).chain([4u32, 5].iter().copied()).collect(),
+        },
+        LargeInput {
             name: "lcsbig-700x1600-one-common".into(),
             old: (0..700u32).map(|i| if i == 350 { 7 } else { 10_000 + i }).collect(),
             new: (0..1600u32).map(|i| if i == 900 { 7 } else { 20_000 + i }).collect(),
